@@ -391,11 +391,23 @@ def _native_valid(rng, target):
         sh = tuple(rng.randint(2, 5) for _ in range(nd))
         return [_arr('float64', sh, 'unit', seed=sd), {'v': None}, _arr('float64', (nd,), 'unit', seed=sd + 1), _arr('float64', sh, 'zeros'),
                 {'v': rng.choice([0, 1, 3])}, {'v': rng.choice([0, 1, 2, 4])}, {'v': 0.0}]
+    # round 4: entry points whose C10 models are new (subm, disk_2d, otsu, close_holes)
+    if target == '_morph.subm':
+        dt = rng.choice(['uint8', 'int32', 'uint16', 'int64'])
+        sh = tuple(rng.randint(1, 5) for _ in range(rng.randint(1, 3)))
+        return [_arr(dt, sh, seed=sd), _arr(dt, sh, seed=sd + 1)]
+    if target == '_morph.disk_2d':
+        return [_arr('bool', (rng.randint(1, 9), rng.randint(1, 9)), 'zeros'), {'v': rng.randint(0, 6)}]
+    if target == '_histogram.otsu':
+        return [_arr('float64', (rng.randint(1, 40),), 'unit', seed=sd)]
+    if target == '_morph.close_holes':
+        return [_arr('bool', (rng.randint(1, 7), rng.randint(1, 7)), 'bool', seed=sd), _arr('bool', (3, 3), 'ones')]
     raise KeyError(target)
 
 
 NATIVE_TARGETS = ['_convolve.find2d', '_convolve.template_match', '_morph.hitmiss', '_morph.majority_filter',
-                  '_center_of_mass.center_of_mass', '_thin.thin', '_interpolate.zoom_shift']
+                  '_center_of_mass.center_of_mass', '_thin.thin', '_interpolate.zoom_shift',
+                  '_morph.subm', '_morph.disk_2d', '_histogram.otsu', '_morph.close_holes']
 _OTHER_DTYPES = ['uint8', 'int32', 'int64', 'float64', 'float32', 'bool', 'uint16', 'complex128', 'float16']
 
 
@@ -743,7 +755,7 @@ def cases(rng, tier):
         if too_expensive(call):
             continue
         out.append(dict(kind='guards', call=call, muts=[list(m) for m in muts]))
-    nn = dict(quick=420, thorough=8000, search=0)[tier]
+    nn = dict(quick=550, thorough=10000, search=0)[tier]
     for j in range(nn):
         target = NATIVE_TARGETS[j % len(NATIVE_TARGETS)]
         valid = _native_valid(rng, target)
@@ -765,6 +777,14 @@ def cases(rng, tier):
         if (w_, n_, i_) in helper_of:
             c['helper'] = helper_of[(w_, n_, i_)]
         out.append(c)
+    # round 4 (appended last: the stream above is unchanged): directed calls at the corners the C10 index models point at —
+    # valid ones (must not crash) and degenerate ones (must raise or return, never crash or hang)
+    from .. import directed4
+    for call in directed4.valid_calls(rng):
+        if not too_expensive(call):
+            out.append(dict(kind='call', call=call, muts=[], valid=call))
+    for call, muts in directed4.degenerate_calls(rng):
+        out.append(dict(kind='call', call=call, muts=muts, valid=call))
     return out
 
 
